@@ -240,3 +240,118 @@ def known_region(case, impl_out, model_out, spec):
     if _folds_negative(t):
         return "F12n"
     return None
+
+
+def py_value(tree: str, scope: str):
+    """Python's own evaluation of the operator expression (ints): None where Python raises (division by zero, a negative power as an
+    axis size is meaningless, the square root of a negative) or the numbers get out of hand"""
+    import math
+
+    toks = impl_sym.TOK.findall(tree)
+    t, _ = impl_sym.parse_term(toks)
+    sc = impl_sym.parse_scope(scope)
+
+    def ev(t):
+        if isinstance(t, int):
+            return t
+        k = t[0]
+        if k == "var":
+            return sc[t[1]]
+        xs = [ev(x) for x in t[1:]]
+        if k == "add":
+            return xs[0] + xs[1]
+        if k == "sub":
+            return xs[0] - xs[1]
+        if k == "mul":
+            return xs[0] * xs[1]
+        if k == "div":
+            return xs[0] // xs[1]
+        if k == "exp":
+            if xs[1] < 0 or xs[1] > 64 or abs(xs[0]) > 10**6:
+                raise ArithmeticError
+            return xs[0] ** xs[1]
+        if k == "min":
+            return min(xs)
+        if k == "max":
+            return max(xs)
+        if k == "isqrt":
+            return math.isqrt(xs[0])
+        if k == "grp":
+            return xs[0]
+        raise ArithmeticError
+
+    try:
+        return ev(t)
+    except (ArithmeticError, ValueError, KeyError, TypeError):
+        return None
+
+
+def observe_check(case) -> str:
+    """the axis built from the symbolic classes, as the ONLY axis of `FloatTensor[Shape[axis]]` (and after a plain `a b` tensor that
+    binds the names), checked against arrays: the size Python's own arithmetic gives, one more, one less"""
+    import numpy as np
+
+    import impl
+    from dltype._lib import _parser
+    from dltype._lib._dltype_context import DLTypeContext
+
+    dltype = impl.dltype
+    tree, scope, v = case.meta["tree"], case.meta["scope"], case.meta["py"]
+    toks = impl_sym.TOK.findall(tree)
+    t, _ = impl_sym.parse_term(toks)
+    try:
+        axis = impl_sym.build(t)
+        if isinstance(axis, int):
+            axis = dltype.LiteralAxis(axis)
+        shape = dltype.Shape[axis]
+        text = str(shape)
+        if _parser.expression_from_string(text).evaluate(impl_sym.parse_scope(scope)) != v:
+            return "skip-printing-differs"    # (the rendering itself is judged by the SYM cases and the known findings on it)
+        ann = dltype.FloatTensor[shape]
+    except Exception as e:  # noqa: BLE001
+        return "skip-" + type(e).__name__
+    sc = impl_sym.parse_scope(scope)
+    out = []
+    for how in ("provider", "tensor"):
+        for size in (v, v + 1, v - 1):
+            if size < 0:
+                continue
+            ctx = DLTypeContext()
+            try:
+                if how == "provider":
+                    ctx.tensor_shape_map = dict(sc)
+                else:
+                    ctx.add("names", (np.zeros((sc.get("a", 1), sc.get("b", 1)), np.float32),), (dltype.FloatTensor["a b"],))
+                ctx.add("x", (np.zeros((size,), np.float32),), (ann,))
+                ctx.assert_context()
+                got = "accept"
+            except dltype.DLTypeError as e:
+                got = type(e).__name__
+            except Exception as e:  # noqa: BLE001
+                got = "EXC " + type(e).__name__
+            want = "accept" if size == v else "DLTypeShapeError"
+            if got != want:
+                out.append(f"{how}: size {size} -> {got} (Python's value {v}, printed {text!r})")
+    return "differs " + "; ".join(out)[:300] if out else "same"
+
+
+def custom(run, tier):
+    """the arithmetic a symbolic axis denotes is what the CHECKER demands of an array (not only what the printed string evaluates to)"""
+    memo = {}
+    cs = []
+    for k in range(3):
+        ts = trees(k, memo)
+        if k == 2:
+            ts = run.rng.sample(ts, 2500 if tier == "quick" else 30000)
+        for t in ts:
+            for sc in SCOPES[:2]:
+                v = py_value(t, sc)
+                if v is not None and 0 <= v <= 4096:
+                    cs.append(Case(f"SYMCHECK\t{t}\t{sc}", "symcheck", {"tree": t, "scope": sc, "py": v}))
+    for t in ("grp(a)", "grp(grp(b))", "mul(add(2,1),2)", "exp(grp(3),2)", "isqrt(add(8,8))", "add(max(add(1,1),3),4)", "grp(3)", "mul(grp(a),1)", "min(grp(a),grp(b))", "grp(add(1,1))"):
+        for sc in SCOPES:
+            v = py_value(t, sc)
+            if v is not None:
+                cs.append(Case(f"SYMCHECK\t{t}\t{sc}", "symcheck", {"tree": t, "scope": sc, "py": v}))
+    run.observe(cs, observe_check, lambda case, got: None if got.startswith(("same", "skip")) else got,
+                "an array is accepted / refused against an axis built from the symbolic classes otherwise than Python's own arithmetic demands")
